@@ -17,8 +17,11 @@
 (*   bbn, bth, bother  bytes of the BatchNorm statistics / stored sampled  *)
 (*                coefficients / all other buffers;  keys = state_dict keys*)
 (*   nbt          num_batches_tracked;  hasbn                              *)
-(*   wt, st, flags  .training of the wrapper, of the seed ("T"|"F"|"mixed")*)
-(*                and of every module (id of the vector)                   *)
+(*   wt, st, bnst, rt, uni, flags   .training of the wrapper; of the layers  *)
+(*                of the inner model that compute (leaf modules other than *)
+(*                BatchNorm), of its BatchNorm layers, of the inner model  *)
+(*                object itself, of all its modules ("T"|"F"|"mixed"|"-"); *)
+(*                flags = id of the complete per-module vector             *)
 (*   rg           requires_grad vector (id)                                *)
 (*   theta        "-" | "soft" | "hard"  class of the stored coefficients  *)
 (*   thv          id of the bytes of all stored theta_alpha tensors        *)
@@ -74,6 +77,8 @@
 (*   F38  SuperNet export(): the stored theta_alpha of the combiners is     *)
 (*        overwritten by the conversion's eval-mode forward (visible when  *)
 (*        it was a Gumbel sample or predates an option change)             *)
+(*   F39  export() restores one flag for the whole inner model: modules     *)
+(*        whose flag differed from seed.training are flipped               *)
 (* Prediction clauses (drift): mode / coefficient class / BN counter after *)
 (* forward, train(), eval() as RefNext computes them from the previous     *)
 (* observation; returned value = fingerprint value.                        *)
@@ -96,7 +101,7 @@ Drift(msg) == <<1, msg>>
 \* fingerprint components
 ParamF == {"pnet", "pnas"}
 BufF   == {"bbn", "bth", "bother", "keys", "nbt"}
-ModeF  == {"wt", "st", "flags"}
+ModeF  == {"wt", "st", "bnst", "rt", "uni", "flags"}
 OutF   == {"out", "oute"}
 CostF  == {"cost", "costfin"}
 UseF   == {"copy_ok", "dkeys"}
@@ -131,6 +136,14 @@ F37Sig(e) == /\ e.act.a \in {"cost", "getcost"} /\ e.dk.ndel = 0 /\ e.dk.nnew > 
 F38Fields == {"theta", "thv", "cost"}
 F38Sig(kind, a, p, o) == kind = "sn" /\ a.a = "export" /\ p.thv # o.thv
 
+\* F39: export() restores the mode of the inner model from ONE flag (seed.training): when the flags of its modules were
+\* not all equal before the call (SuperNet right after construction: fx container modules True, layers False; BatchNorm
+\* layers frozen individually with .eval()), afterwards they all carry the flag the inner model object had
+F39Fields == {"st", "bnst", "uni", "flags", "out", "oute"}
+F39Later  == {"st", "bnst", "uni", "flags", "out", "oute", "bbn", "nbt"}
+F39Sig(a, p, o) == /\ a.a = "export" /\ p.uni = "mixed" /\ o.rt = p.rt /\ o.wt = p.wt
+                   /\ o.uni = (IF p.rt THEN "T" ELSE "F")
+
 F16Sig(a, p, o) == a.a = "export" /\ p.st = "T" /\ o.st = "F" /\ o.wt = p.wt
 F35Sig(kind, a, p, o) == kind = "mps" /\ a.a = "export" /\ p.theta = "soft" /\ o.theta = "hard" /\ p.bth # o.bth
 
@@ -138,6 +151,8 @@ ActStr(a) == IF a.a = "export" THEN (IF a.nobn THEN "export(add_bn=False)" ELSE 
              ELSE IF a.a = "getcost" THEN "get_cost(" \o a.n \o ")"
              ELSE IF a.a = "setcs" THEN "cost_specification:=" \o a.c
              ELSE IF a.a = "mode" THEN (IF a.v THEN "train()" ELSE "eval()")
+             ELSE IF a.a = "seedmode" THEN (IF a.v THEN "seed.train()" ELSE "seed.eval()")
+             ELSE IF a.a = "upd" THEN "option " \o a.o \o ":=" \o ToString(a.v)
              ELSE a.a
 
 (***************************************************************************)
@@ -152,7 +167,8 @@ ObserverVerdict(kind, e, p, where) ==
         s36 == F36Sig(kind, e)
         s37 == F37Sig(e)
         s38 == F38Sig(kind, a, p, o)
-        expl == (IF s16 THEN F16Fields ELSE {}) \cup (IF s35 THEN F35Fields ELSE {}) \cup (IF s38 THEN F38Fields ELSE {})
+        s39 == F39Sig(a, p, o)
+        expl == (IF s39 THEN F39Fields ELSE {}) \cup (IF s16 THEN F16Fields ELSE {}) \cup (IF s35 THEN F35Fields ELSE {}) \cup (IF s38 THEN F38Fields ELSE {})
                 \cup (IF s36 THEN F36Fields ELSE {}) \cup (IF s37 THEN F37Fields ELSE {})
         bad  == ch \ expl
     IN  IF ch = {} THEN OK
@@ -163,6 +179,11 @@ ObserverVerdict(kind, e, p, where) ==
         THEN Known("known:F35:C18.neutral: MPS.export() overwrites the stored theta_alpha with the eval-mode one-hot "
                    \o "sample; cost / state_dict differ until the next forward (" \o where \o ": changed "
                    \o ToString(ch) \o ")")
+        ELSE IF bad = {} /\ s39
+        THEN Known("known:F39:C18.neutral: export() restores the mode of the inner model from one flag: modules whose flag "
+                   \o "differed from seed.training (fx containers of a fresh SuperNet, individually frozen BatchNorm layers) "
+                   \o "are flipped (" \o where \o ": layers " \o p.st \o "->" \o o.st \o ", BatchNorm " \o p.bnst \o "->" \o o.bnst
+                   \o ", changed " \o ToString(ch) \o ")")
         ELSE IF bad = {} /\ s38
         THEN Known("known:F38:C18.neutral: SuperNet.export() re-samples the stored theta_alpha of every combiner (eval-mode "
                    \o "sample with the options in force now); cost / get_cost differ after export() until the next forward ("
@@ -199,12 +220,13 @@ SetterVerdict(a, p, o, where) ==
 
 TaintExplains(taint) == (IF "F16" \in taint THEN F16Later ELSE {}) \cup (IF "F35" \in taint THEN F35Later ELSE {})
                         \cup (IF "F36" \in taint THEN F36Fields ELSE {}) \cup (IF "F37" \in taint THEN F37Fields ELSE {})
-                        \cup (IF "F38" \in taint THEN F38Fields ELSE {})
+                        \cup (IF "F38" \in taint THEN F38Fields ELSE {}) \cup (IF "F39" \in taint THEN F39Later ELSE {})
 
 \* the finding an erasure mismatch is attributed to: the first (in this order) that explains one of the differing fields
 TaintId(taint, ch) ==
     IF "F16" \in taint /\ ch \cap F16Later # {} THEN "F16"
     ELSE IF "F35" \in taint /\ ch \cap F35Later # {} THEN "F35"
+    ELSE IF "F39" \in taint /\ ch \cap F39Later # {} THEN "F39"
     ELSE IF "F38" \in taint /\ ch \cap F38Fields # {} THEN "F38"
     ELSE IF "F36" \in taint /\ ch \cap F36Fields # {} THEN "F36"
     ELSE "F37"
@@ -243,14 +265,15 @@ PredVerdict(kind, hasbn, e, p, where) ==
                 ELSE IF o.wt # p.wt \/ o.st # p.st \/ o.theta # p.theta \/ o.nbt # p.nbt
                 THEN Drift("drift:an option call changed modes / stored coefficients / BatchNorm counter at " \o where)
                 ELSE OK
-        ELSE IF a.a \in {"forward", "mode"} /\ p.st # "mixed" /\ p.opt.hard # "mixed" /\ p.opt.samp \notin {"mixed", "?"}
-        THEN LET c  == [wt |-> p.wt, st |-> p.st = "T", theta |-> p.theta, bn |-> p.nbt,
+        ELSE IF a.a \in {"forward", "mode", "seedmode", "freezebn"} /\ p.st \notin {"mixed", "-"} /\ p.bnst # "mixed" /\ p.opt.hard # "mixed" /\ p.opt.samp \notin {"mixed", "?"}
+        THEN LET c  == [wt |-> p.wt, st |-> p.st = "T", frz |-> (p.st = "T" /\ p.bnst = "F"), theta |-> p.theta, bn |-> p.nbt,
                         opt |-> [hard |-> p.opt.hard = "T"], samp |-> p.opt.samp]
                  P  == [hasbn |-> hasbn, maxbn |-> p.nbt + 1]
                  n  == RefNext(kind, P, c, a)
              IN IF o.wt # n.wt \/ o.st # (IF n.st THEN "T" ELSE "F") \/ o.theta # n.theta \/ o.nbt # n.bn
+                   \/ (o.bnst # "-" /\ o.bnst # (IF n.st /\ ~n.frz THEN "T" ELSE "F"))
                 THEN Drift("drift:core after " \o ActStr(a) \o " at " \o where \o ": observed "
-                           \o ToString(<<o.wt, o.st, o.theta, o.nbt>>) \o " model " \o ToString(n))
+                           \o ToString(<<o.wt, o.st, o.bnst, o.theta, o.nbt>>) \o " model " \o ToString(n))
                 ELSE IF a.a = "forward" /\ Changed(p, o) \cap (ParamF \cup {"keys", "wt", "st", "flags", "rg"}) # {}
                 THEN Drift("drift:forward changed " \o ToString(Changed(p, o)) \o " at " \o where)
                 ELSE OK
@@ -277,6 +300,7 @@ NewTaint(kind, e, p, taint) ==
                \cup (IF F36Sig(kind, e) THEN {"F36", "F37"} ELSE {})      \* (an F36 call may also write output_shape on fixed layers)
                \cup (IF F37Sig(e) THEN {"F37"} ELSE {})
                \cup (IF F38Sig(kind, e.act, p, e.obs) THEN {"F38"} ELSE {})
+               \cup (IF F39Sig(e.act, p, e.obs) THEN {"F39"} ELSE {})
 
 RECURSIVE Walk(_, _, _, _, _, _)
 Walk(t, i, p, taint, acc, dummy) ==
